@@ -2,7 +2,8 @@ open M_c16
 (*#include conv*)
 (* cases (same lines as harness/h_dtlswin.c):
    w <last12hex> <bitmaphex> <exp> <e:seq12hex> ...                    window alone
-   g <S|C> <last12hex> <bitmaphex> <exp> <type:hs:pccs:ade:e:seq12hex> ...   epoch gate + window *)
+   g <S|C> <last12hex> <bitmaphex> <exp> <type:hs:pccs:ade:e:seq12hex> ...   epoch gate + window
+   flights <ske 0|1> <f|a|r>                                                 flight table of the model *)
 let pad12 s = String.make (max 0 (12 - String.length s)) '0' ^ s
 let win_str (w : win) = Printf.sprintf "last=%s bm=%s" (pad12 (hex_of_n w.w_last)) (hex_of_n w.w_bm)
 let () = iter_lines (fun l ->
@@ -25,4 +26,10 @@ let () = iter_lines (fun l ->
       String.concat "" (List.map (fun v -> match v with
         | VAccept -> "awD" | VReplay -> "dwS" | VSkip -> "dnS" | VRetransmit -> "dnR" | VAlert -> "dnU") vs)
       ^ Printf.sprintf " exp=%d " (int_of_n st'.rx_exp) ^ win_str st'.rx_win
+  | ["flights"; ske; m] ->
+      (* flights <0|1> <f|a|r>: the model's flight table, "C:1 S:3 C:1 S:2,11,14 ..." *)
+      let mode = (match m with "f" -> HFull | "a" -> HClientAuth | "r" -> HResumed | _ -> failwith "mode") in
+      String.concat " " (List.map (fun (p, ms) ->
+        (match p with Client -> "C:" | Server -> "S:") ^ String.concat "," (List.map (fun x -> string_of_int (int_of_z x)) ms))
+        (flights (ske = "1") mode))
   | _ -> "BADCASE")
